@@ -765,6 +765,11 @@ class TextXVisitor(RRELVisitor):
                 raise TextXError("param split requires a string parameter")
             if name == "split" and len(value) == 0:
                 raise TextXError("param split requires a non-empty string parameter")
+            if name == "ws" and not isinstance(value, str):
+                raise TextXSyntaxError(
+                    'Rule param "ws" requires a string value '
+                    f"at {self.grammar_parser.pos_to_linecol(node.position)}."
+                )
             if name == "ws" and "\\" in value:
                 new_value = ""
                 if "\\n" in value:
